@@ -25,7 +25,7 @@ func init() {
 		Run: runC33,
 		Controls: []Control{
 			{Name: "csnp-tick-assumes-a-level-2-manager", File: "protocols/isis/server/lsdb.go", Old: "\t\tif ifa.neighborManagerL2 == nil || len(ifa.neighborManagerL2.getNeighborsUp()) < 1 {", New: "\t\tif len(ifa.neighborManagerL2.getNeighborsUp()) < 1 {", Expect: "level-handle-guarded"},
-			{Name: "down-neighbor-replaced-in-the-map", File: "protocols/isis/server/neighbor_manager.go", Old: "\tif _, found := nm.neighbors[src]; !found {\n", New: "\tif old, found := nm.neighbors[src]; !found || old.getState() == packet.P2PAdjStateDown {\n", Expect: "neighbor-entry-created-only-when-absent"},
+			{Name: "down-neighbor-replaced-in-the-map", File: "protocols/isis/server/neighbor_manager.go", Old: "\tif _, found := nm.neighbors[src]; !found {\n\t\tn := nm.neighborFromP2PHello(hello, src)\n", New: "\tif old, found := nm.neighbors[src]; !found || old.getState() == packet.P2PAdjStateDown {\n\t\tn := nm.neighborFromP2PHello(hello, src)\n", Expect: "neighbor-entry-created-only-when-absent"},
 			{Name: "failed-join-closes-the-handle-and-keeps-it", File: "protocols/isis/server/net_ifa.go", Old: "\t\tif err != nil {\n\t\t\tnifa._stop()\n\t\t\treturn fmt.Errorf(\"unable to join IS p2p hello multicast group: %w\", err)\n", New: "\t\tif err != nil {\n\t\t\tnifa.ethernetInterface.Close()\n\t\t\treturn fmt.Errorf(\"unable to join IS p2p hello multicast group: %w\", err)\n", Expect: "closed-handle-is-forgotten"},
 			{Name: "done-closed-on-every-stop", File: "protocols/isis/server/net_ifa.go", Old: "\tif nifa.ethernetInterface != nil {\n\t\tclose(nifa.done)\n\t\tnifa.ethernetInterface.Close()\n\t}\n", New: "\tclose(nifa.done)\n\tif nifa.ethernetInterface != nil {\n\t\tnifa.ethernetInterface.Close()\n\t}\n", Expect: "restart-recreates-consumed"},
 			{Name: "psnp-tick-on-down-interface", File: "protocols/isis/server/lsdb.go", Old: "\t\teth := ifa.ethernetInterface\n\t\tif eth == nil {\n\t\t\tcontinue\n\t\t}\n\n\t\tlspdus := l._getLSPWithSSNSet(ifa)\n\t\tfor _, psnp := range packet.NewPSNPs(srcID, lspdus, eth.GetMTU()) {", New: "\t\tlspdus := l._getLSPWithSSNSet(ifa)\n\t\tfor _, psnp := range packet.NewPSNPs(srcID, lspdus, ifa.ethernetInterface.GetMTU()) {", Expect: "link-state-handle-guarded"},
